@@ -246,6 +246,10 @@ def run(R, ctx):
     guard(R, ctx)
     hoist(R, ctx)
     c17.eval_order(R, ctx, "C01.order")
+    # the default rules that drop or rename variables (remove_unused_variable, rename_variables, ...) are driven by the scope visitors:
+    # Lua's visibility rules as event-order constraints (shared with C09.order)
+    from . import c09
+    c09.order(R, ctx, "C01.scope")
     reach_and_list(R, ctx)
     from .. import loops
     loops.index_removal_rule(R, ctx, "C01.index")
